@@ -117,7 +117,13 @@ def show(n, casts=False):
     if k == "DeclRefExpr":
         return n.name
     if k == "MemberExpr":
-        return show(c[0], casts) + ("->" if n.arrow else ".") + n.name
+        arrow = n.arrow
+        inner = c[0]
+        while inner is not None and inner.k in ("ParenExpr", "ImplicitCastExpr") and inner.children:
+            inner = inner.children[0]
+        if inner is not None and inner.k == "MemberExpr" and inner.d.get("name") == "":
+            arrow = inner.arrow
+        return show(c[0], casts) + ("->" if arrow else ".") + n.name
     if k == "ArraySubscriptExpr":
         return "%s[%s]" % (show(c[0], casts), show(c[1], casts))
     if k in ("IntegerLiteral", "CharacterLiteral"):
